@@ -1640,13 +1640,17 @@ impl<'de, 'e> de::Deserializer<'de> for YamlDeserializer<'de, 'e> {
                 visitor.visit_none()
             }
 
-            // YAML null forms as scalars → None (`!!str` makes any text a string)
+            // YAML null forms as scalars → None (`!!str` makes any text a string, `!!binary` an
+            // empty payload the empty byte string)
             Some(Ev::Scalar {
                 value: s,
                 style,
                 tag,
                 ..
-            }) if tag != &SfTag::String && scalar_is_nullish_for_option(s, style) => {
+            }) if tag != &SfTag::String
+                && tag != &SfTag::Binary
+                && scalar_is_nullish_for_option(s, style) =>
+            {
                 let _ = self.ev.next()?; // consume the scalar
                 visitor.visit_none()
             }
